@@ -629,8 +629,9 @@ def gen_c08_invalid(rng, tier):
         kind = o["kind"]
         T = o["T"]
         if kind in ("reduce", "reduce2", "var", "norm"):
-            if o["axis"] == "N":
-                continue           # axis=None: no axis argument to get wrong
+            if o["axis"] in ("N", "C", "S"):
+                continue           # axis=None: no axis argument to get wrong; C / S: compile-time axis / bounded axes on a fixed-dim
+                                   # source (C08's container-kind group): an invalid compile-time axis is a compile-time matter
             exhaustive = o["name"] in ("red_add_i4_aI_dN_iN_kF", "red_add_i4_aL_dN_iN_kF", "red_add_i4_aL_dN_iN_kR")
             ckey = (o["axis"], o["keep"], o.get("multi_axis", True))
             if ckey not in combo_cache:
